@@ -1006,18 +1006,34 @@ var g = &grammar{
 			expr: &actionExpr{
 				pos: position{line: 292, col: 18, offset: 9391},
 				run: (*parser).callonFieldModifier1,
-				expr: &choiceExpr{
-					pos: position{line: 292, col: 19, offset: 9392},
-					alternatives: []interface{}{
-						&litMatcher{
-							pos:        position{line: 292, col: 19, offset: 9392},
-							val:        "required",
-							ignoreCase: false,
+				expr: &seqExpr{
+					pos: position{line: 292, col: 18, offset: 9391},
+					exprs: []interface{}{
+						&choiceExpr{
+							pos: position{line: 292, col: 19, offset: 9392},
+							alternatives: []interface{}{
+								&litMatcher{
+									pos:        position{line: 292, col: 19, offset: 9392},
+									val:        "required",
+									ignoreCase: false,
+								},
+								&litMatcher{
+									pos:        position{line: 292, col: 32, offset: 9405},
+									val:        "optional",
+									ignoreCase: false,
+								},
+							},
 						},
-						&litMatcher{
-							pos:        position{line: 292, col: 32, offset: 9405},
-							val:        "optional",
-							ignoreCase: false,
+						&notExpr{
+							pos: position{line: 292, col: 44, offset: 9417},
+							expr: &charClassMatcher{
+								pos:        position{line: 292, col: 45, offset: 9418},
+								val:        "[A-Za-z0-9._]",
+								chars:      []rune{'.', '_'},
+								ranges:     []rune{'A', 'Z', 'a', 'z', '0', '9'},
+								ignoreCase: false,
+								inverted:   false,
+							},
 						},
 					},
 				},
@@ -1205,6 +1221,17 @@ var g = &grammar{
 											val:        "oneway",
 											ignoreCase: false,
 										},
+										&notExpr{
+											pos: position{line: 321, col: 53, offset: 10300},
+											expr: &charClassMatcher{
+												pos:        position{line: 321, col: 54, offset: 10301},
+												val:        "[A-Za-z0-9._]",
+												chars:      []rune{'.', '_'},
+												ranges:     []rune{'A', 'Z', 'a', 'z', '0', '9'},
+												ignoreCase: false,
+												inverted:   false,
+											},
+										},
 										&ruleRefExpr{
 											pos:  position{line: 321, col: 53, offset: 10300},
 											name: "__",
@@ -1312,10 +1339,26 @@ var g = &grammar{
 					expr: &choiceExpr{
 						pos: position{line: 349, col: 22, offset: 11099},
 						alternatives: []interface{}{
-							&litMatcher{
-								pos:        position{line: 349, col: 22, offset: 11099},
-								val:        "void",
-								ignoreCase: false,
+							&seqExpr{
+								pos: position{line: 349, col: 22, offset: 11099},
+								exprs: []interface{}{
+									&litMatcher{
+										pos:        position{line: 349, col: 22, offset: 11099},
+										val:        "void",
+										ignoreCase: false,
+									},
+									&notExpr{
+										pos: position{line: 349, col: 29, offset: 11106},
+										expr: &charClassMatcher{
+											pos:        position{line: 349, col: 30, offset: 11107},
+											val:        "[A-Za-z0-9._]",
+											chars:      []rune{'.', '_'},
+											ranges:     []rune{'A', 'Z', 'a', 'z', '0', '9'},
+											ignoreCase: false,
+											inverted:   false,
+										},
+									},
+								},
 							},
 							&ruleRefExpr{
 								pos:  position{line: 349, col: 31, offset: 11108},
